@@ -37,6 +37,17 @@ check('C01', 'E1', 'exploration',
       'no line pre-pass, \\par runs collapsed). Four documented deviations are open findings.',
       'DESIGN.md 2/C01')
 
-_PENDING = {'C02': 'check not built yet in this round (planned: bounded exhaustive exploration, see DESIGN.md section 2)', 'C03': 'check not built yet in this round (planned: bounded exhaustive exploration, see DESIGN.md section 2)', 'C04': 'check not built yet in this round (planned: bounded exhaustive exploration, see DESIGN.md section 2)', 'C05': 'check not built yet in this round (planned: bounded exhaustive exploration, see DESIGN.md section 2)', 'C06': 'check not built yet in this round (planned: bounded exhaustive exploration, see DESIGN.md section 2)', 'C07': 'check not built yet in this round (planned: bounded exhaustive exploration, see DESIGN.md section 2)', 'C08': 'check not built yet in this round (planned: bounded exhaustive exploration, see DESIGN.md section 2)', 'C09': 'check not built yet in this round (planned: bounded exhaustive exploration, see DESIGN.md section 2)', 'C10': 'check not built yet in this round (planned: bounded exhaustive exploration, see DESIGN.md section 2)', 'C11': 'check not built yet in this round (planned: bounded exhaustive exploration, see DESIGN.md section 2)', 'C12': 'check not built yet in this round (planned: bounded exhaustive exploration, see DESIGN.md section 2)', 'C13': 'check not built yet in this round (planned: bounded exhaustive exploration, see DESIGN.md section 2)', 'C14': 'check not built yet in this round (planned: bounded exhaustive exploration, see DESIGN.md section 2)', 'C15': 'check not built yet in this round (planned: bounded exhaustive exploration, see DESIGN.md section 2)', 'C16': 'check not built yet in this round (planned: bounded exhaustive exploration, see DESIGN.md section 2)', 'C17': 'check not built yet in this round (planned: bounded exhaustive exploration, see DESIGN.md section 2)', 'C18': 'check not built yet in this round (planned: bounded exhaustive exploration, see DESIGN.md section 2)', 'C19': 'check not built yet in this round (planned: bounded exhaustive exploration, see DESIGN.md section 2)', 'C20': 'check not built yet in this round (planned: bounded exhaustive exploration, see DESIGN.md section 2)'}
+check('C03', 'E1', 'exploration',
+      'bounded exhaustive enumeration of conditional trees, oracle = AST evaluation',
+      'Every conditional tree of depth <= 2 (quick) / 3 (thorough) over 25 boolean tests and \\ifcase with 1-3 \\or arms and every '
+      'selector from -1 to k+2, with/without \\else, a nested conditional in every taken or untaken branch position, in four '
+      'placements (top level, group, macro body, macro argument), is parsed by the real engine; expected marker text, a '
+      'bit-mask counter of executed branches and the final \\newif state come from evaluating the tree. Untaken branches are '
+      'therefore checked for text AND side effects on every tree of the scope.',
+      'Trusted: the AST evaluator in vp/checks/c03.py (TeX truth values of the chosen operands are fixed at generation time); '
+      'normal form of DESIGN.md (\\relax-terminated literals).',
+      'DESIGN.md 2/C03')
+
+_PENDING = {'C02': 'check not built yet in this round (planned: bounded exhaustive exploration, see DESIGN.md section 2)', 'C04': 'check not built yet in this round (planned: bounded exhaustive exploration, see DESIGN.md section 2)', 'C05': 'check not built yet in this round (planned: bounded exhaustive exploration, see DESIGN.md section 2)', 'C06': 'check not built yet in this round (planned: bounded exhaustive exploration, see DESIGN.md section 2)', 'C07': 'check not built yet in this round (planned: bounded exhaustive exploration, see DESIGN.md section 2)', 'C08': 'check not built yet in this round (planned: bounded exhaustive exploration, see DESIGN.md section 2)', 'C09': 'check not built yet in this round (planned: bounded exhaustive exploration, see DESIGN.md section 2)', 'C10': 'check not built yet in this round (planned: bounded exhaustive exploration, see DESIGN.md section 2)', 'C11': 'check not built yet in this round (planned: bounded exhaustive exploration, see DESIGN.md section 2)', 'C12': 'check not built yet in this round (planned: bounded exhaustive exploration, see DESIGN.md section 2)', 'C13': 'check not built yet in this round (planned: bounded exhaustive exploration, see DESIGN.md section 2)', 'C14': 'check not built yet in this round (planned: bounded exhaustive exploration, see DESIGN.md section 2)', 'C15': 'check not built yet in this round (planned: bounded exhaustive exploration, see DESIGN.md section 2)', 'C16': 'check not built yet in this round (planned: bounded exhaustive exploration, see DESIGN.md section 2)', 'C17': 'check not built yet in this round (planned: bounded exhaustive exploration, see DESIGN.md section 2)', 'C18': 'check not built yet in this round (planned: bounded exhaustive exploration, see DESIGN.md section 2)', 'C19': 'check not built yet in this round (planned: bounded exhaustive exploration, see DESIGN.md section 2)', 'C20': 'check not built yet in this round (planned: bounded exhaustive exploration, see DESIGN.md section 2)'}
 for _p, _why in _PENDING.items():
     NOT_APPLICABLE.append({'property_id': _p, 'reason': _why})
